@@ -54,7 +54,7 @@ type dbgProg struct {
 	// Defer (corpus files only): the exact input of a finding that is not yet registered in known_findings.json; while its
 	// key is not registered a failure is listed in report.json extra "deferred_corpus_failures" instead of being failed
 	Defer bool `json:"defer_until_registered,omitempty"`
-	nDrop     int      // statements in constant-false branches
+	nDrop int  // statements in constant-false branches
 }
 
 // dbgHdr: the extent of one statement (compound statements: of its header) and the markers t(K) it contains
